@@ -11,7 +11,7 @@ CONSTANTS
   LanIPs = {"a1", "a2", "a3", "a4", "a5", "a6", "a7", "a8", "a9", "a10", "a11", "a12", "a13", "a14", "a15", "a16", "a17", "a18", "a19", "a20"}
   ExtIPs = {"x1", "x2", "x3"}
   LLAs = {"l1", "l2", "l3", "l4"}
-  GUAs = {"g1", "g2", "g3", "g4", "q1", "q2", "q3", "q4", "q5", "q6"}
+  GUAs = {"g1", "g2", "g3", "g4", "q1", "q2", "q3", "q4", "q5", "q6", "u1", "u2"}
   Slots = {"dhcp", "mdns", "ssdp", "llmnr", "nbns"}
   Dhcp = "dhcp"
   Llmnr = "llmnr"
